@@ -221,6 +221,34 @@ def exec_case(ctx, r):
             ctx.violation(sub, "batch-dependence",
                           f"rows differ between batches (trial {trial})", r)
             break
+    # -- the caller edits the SAME data object in place and fits again: the values must follow ----
+    if n >= 4 and not r.get("int_dtype") and ok_pairs:
+        try:
+            Xobj = X.copy()
+            c2 = build(S(kind, param=r["param"])).fit(Xobj)
+            c2.evaluate(cuts[:1])
+            a = int(rng.integers(0, n - 1))
+            Xobj[a:a + max(1, n // 4)] += 3.25  # in-place edit by the caller
+            c2.fit(Xobj)
+            tol2 = M.DataTol(Xobj)
+            sel = rng.choice(len(ok_pairs), size=min(len(ok_pairs), 12), replace=False)
+            v3 = c2.evaluate(cuts[sel])
+            ctx.stat("refit_same_object_rows", len(sel))
+            for j, i in enumerate(sel):
+                s_, e_ = ok_pairs[int(i)]
+                lo, hi, status = M.cost_interval(kind, param, Xobj, tol2, s_, e_)
+                if status != "ok":
+                    continue
+                if not (np.all(v3[j] >= lo) and np.all(v3[j] <= hi)):
+                    ctx.violation(sub, "stale-fit", f"{short(S(kind, param=r['param']))} [{s_},{e_}) after the "
+                                  f"caller edited X in place and fitted again: got {v3[j].tolist()} outside "
+                                  f"[{np.asarray(lo).tolist()}, {np.asarray(hi).tolist()}] (values of the "
+                                  f"earlier contents?)", r)
+                    break
+        except RuntimeError:
+            pass
+        except Exception as ex:
+            ctx.violation(sub, "exception", f"refit on the edited object raised {type(ex).__name__}: {ex}", r)
     if interior or p > 1:
         ctx.nt(digest([r["kind"], r["param"], r["X"]]))
     ctx.sample({"cost": short(S(kind, param=r["param"])), "n": n, "p": p,
